@@ -88,6 +88,8 @@ class _World:
         self.gate_resume = threading.Event()
         self.gate_timed_out = False
         self.mc = None                  # the fake memcache client, once created
+        self.sweep_thread = None
+        self.sweep_waiting = threading.Event()
 
     def urandom(self, n):
         k = len(self.draws)
@@ -161,6 +163,12 @@ class _TimeShim:
 
     @staticmethod
     def sleep(s):
+        w = W[0]
+        if w is not None and w.sweep_thread is threading.current_thread():
+            # the sweep waits for a session lock held by the request parked in its handler
+            w.sweep_waiting.set()
+            _time.sleep(0.005)
+            return
         raise common.HarnessError('session lock contention inside a history')
 
     def __getattr__(self, name):
@@ -664,6 +672,8 @@ def _run_history(case):
             check_hops(ops[3])
         elif ops[0] == 'par':
             check_hops(ops[3] + ops[4] + ops[7])
+        elif ops[0] == 'swpar':
+            check_hops(ops[3] + ops[4])
     saved = (sessions.datetime, sessions.time, sessions.os)
     sessions.datetime, sessions.time, sessions.os = _DatetimeShim(), _TimeShim(), _OsShim()
     real_generate_id = sessions.Session.generate_id
@@ -917,6 +927,98 @@ def _run_history(case):
                 mops.append('o/%s/%s/%s/%s/%s' % (mcookie(rqa['pairs']), '+'.join(mpre) or '-', '+'.join(mpost) or '-',
                                                   mcookie(rqb['pairs']), '+'.join(mhb) or '-'))
                 events.append({'op': 'par', 'A': eva, 'B': evb, 'blocked': blocked, 'now': w.clock})
+            elif kind == 'swpar':
+                # the sweep runs while the request is inside its handler (holding its session's lock)
+                _, client, spec, prea, posta = op
+                mon = w.monitors[0] if w.monitors else None
+                if mon is None or backend == 'mem':
+                    rq = prepare(client, spec, list(prea) + list(posta))
+                    result = fire(rq)
+                    after = listing()
+                    item, ev = observe(rq, result, before, after)
+                    items.append('R:' + item + '@' + show_listing(after))
+                    mh = model_hops(rq['hops'], backend)
+                    mops.append('q/%s/%s' % (mcookie(rq['pairs']), '+'.join(mh) if mh else '-'))
+                    events.append(ev)
+                    continue
+                rq = prepare(client, spec, list(prea) + ['P'] + list(posta))
+                w.gate_reached.clear()
+                w.gate_resume.clear()
+                w.sweep_waiting.clear()
+                box = {}
+
+                def ta():
+                    try:
+                        box['a'] = fire(rq)
+                    except BaseException as e:      # noqa: B902 - reported by the main thread
+                        box['aexc'] = e
+                    finally:
+                        w.gate_reached.set()
+
+                def ts():
+                    w.sweep_thread = threading.current_thread()
+                    try:
+                        mon.callback()
+                        box['s'] = ('done', '')
+                    except common.HarnessError as e:
+                        box['sexc'] = e
+                    except Exception as e:          # the Monitor thread would die here
+                        box['s'] = ('aborted', type(e).__name__)
+                    finally:
+                        box['sdone'] = True
+                tha = threading.Thread(target=ta, daemon=True)
+                tha.start()
+                if not w.gate_reached.wait(20):
+                    w.gate_resume.set()
+                    raise Hang('the request of a sweep interleaving did not reach its handler')
+                parked = 'a' not in box and 'aexc' not in box
+                mid = listing()
+                ths = threading.Thread(target=ts, daemon=True)
+                ths.start()
+                t0 = _time.time()
+                while not box.get('sdone') and not w.sweep_waiting.is_set() and _time.time() - t0 < 20:
+                    _time.sleep(0.002)
+                waited = w.sweep_waiting.is_set() and not box.get('sdone')
+                w.gate_resume.set()
+                tha.join(20)
+                ths.join(20)
+                w.sweep_thread = None
+                if tha.is_alive() or ths.is_alive():
+                    raise Hang('a sweep running next to a request did not finish')
+                for k in ('aexc', 'sexc'):
+                    if k in box:
+                        raise box[k]
+                if w.gate_timed_out:
+                    raise common.HarnessError('gate timed out')
+                after = listing()
+                out, exc = box['s']
+                # what the request alone left: the final listing plus what only the sweep took away
+                after_a = dict(after)
+                for k, v in mid.items():
+                    if k not in after_a:
+                        after_a[k] = v
+                item, ev = observe(rq, box['a'], before, after_a)
+                ev['hops'] = [h for h in ev['hops'] if h != 'P']
+                sw_before = dict(mid)
+                for k, v in after.items():
+                    sw_before.setdefault(k, v)
+                sev = {'op': 'sweep', 'out': out, 'exc': exc, 'before': sw_before, 'after': after,
+                       'now': w.clock, 'ran': True}
+                mh = model_hops(ev['hops'], backend)
+                if parked:
+                    mpre, mpost = model_hops(prea, backend), model_hops(posta, backend)
+                    items.append(('R:' + item if out == 'done' else 'aborted') + '@' + show_listing(after))
+                    mops.append('z/%s/%s/%s' % (mcookie(rq['pairs']), '+'.join(mpre) or '-', '+'.join(mpost) or '-'))
+                else:
+                    # the request was over before the sweep began (refused, or failed before the gate)
+                    items.append('R:' + item + '@' + show_listing(mid))
+                    items.append(out + '@' + show_listing(after))
+                    mops.append('q/%s/%s' % (mcookie(rq['pairs']), '+'.join(mh) if mh else '-'))
+                    mops.append('s' + ','.join(str(w.number(x)) for x in sorted(mid)) if backend == 'file' and mid
+                                else 's')
+                    ev['after'] = mid
+                    sev['before'] = mid
+                events.append({'op': 'swpar', 'A': ev, 'S': sev, 'waited': waited, 'now': w.clock})
             elif kind == 'adv':
                 w.clock += int(op[1])
                 items.append('done@' + show_listing(listing()))
